@@ -28,17 +28,18 @@ type c09Req struct {
 }
 
 type c09Scen struct {
-	Router   string      `json:"router"`
-	Methods  []string    `json:"allowed_methods"` // empty: computed per request
-	Headers  []string    `json:"allowed_headers"`
-	Domains  []string    `json:"allowed_domains"`
-	Cookies  bool        `json:"cookies"`
-	MaxAge   int         `json:"max_age"`
-	Expose   []string    `json:"expose_headers"`
-	Trace    bool        `json:"trace"`
-	Preempt  int         `json:"preempt_permille"`
-	Clients  [][]*c09Req `json:"clients"`
-	AddRoute bool        `json:"admin_adds_route"`
+	Router     string      `json:"router"`
+	Methods    []string    `json:"allowed_methods"` // empty: computed per request
+	Headers    []string    `json:"allowed_headers"`
+	Domains    []string    `json:"allowed_domains"`
+	Cookies    bool        `json:"cookies"`
+	MaxAge     int         `json:"max_age"`
+	Expose     []string    `json:"expose_headers"`
+	Trace      bool        `json:"trace"`
+	UseDefault bool        `json:"filter_uses_default_container"` // Container field left nil: the filter asks restful.DefaultContainer
+	Preempt    int         `json:"preempt_permille"`
+	Clients    [][]*c09Req `json:"clients"`
+	AddRoute   bool        `json:"admin_adds_route"`
 }
 
 var c09URLs = []string{"/a/x", "/a/y", "/a/y/7", "/b/z", "/a/none", "/a/y/7/", "/a/x/", "/a/y/7/extra/", "/a/y/"}
@@ -62,6 +63,7 @@ func genC09(x *Ctx) *c09Scen {
 		sc.Expose = []string{"X-Exposed"}
 	}
 	sc.Trace = tp.Chance(300)
+	sc.UseDefault = tp.Chance(300)
 	sc.Preempt = []int{300, 100, 500}[tp.G(3)]
 	sc.AddRoute = tp.Chance(250)
 	maxReq := 4
@@ -125,6 +127,19 @@ func c09BuildOpt(sc *c09Scen, byID map[int]*c09Req, extraRoute bool, withCORS bo
 		CookiesAllowed: sc.Cookies, MaxAge: sc.MaxAge, ExposeHeaders: sc.Expose, Container: c}
 	if len(sc.Methods) == 0 {
 		cors.AllowedMethods = nil
+	}
+	if sc.UseDefault {
+		// documented: without a Container the filter computes methods from the default container
+		cors.Container = nil
+		restful.DefaultContainer = c
+	} else {
+		// a decoy as default container: asking it instead of the configured one would show
+		decoy := restful.NewContainer()
+		dws := new(restful.WebService).Path("/a")
+		dws.Route(dws.PATCH("/x").To(func(*restful.Request, *restful.Response) {}))
+		dws.Route(dws.PATCH("/y").To(func(*restful.Request, *restful.Response) {}))
+		decoy.Add(dws)
+		restful.DefaultContainer = decoy
 	}
 	if withCORS {
 		c.Filter(cors.Filter) // by value, as documented
